@@ -1,0 +1,91 @@
+//go:build verif
+
+/*
+ * Verification exports for the "room for write" logic (memTable.isFull, DB.ensureRoomForWrite,
+ * arenaSize): add-only, read-only helpers for the external verification harness. Compiled only
+ * with `-tags verif`.
+ */
+
+package badger
+
+import (
+	"errors"
+	"time"
+
+	"github.com/dgraph-io/badger/v4/skl"
+	"github.com/dgraph-io/badger/v4/y"
+)
+
+// VerifRoomInfo is what memTable.isFull looks at, and what ensureRoomForWrite did so far.
+type VerifRoomInfo struct {
+	InMemory      bool
+	MemTableSize  int64 // Options.MemTableSize
+	MaxBatchSize  int64 // Options.maxBatchSize
+	MaxBatchCount int64 // Options.maxBatchCount
+	ArenaSize     int64 // arenaSize(db.opt): the size of every memtable's skiplist arena
+	MaxNodeSize   int64 // skl.MaxNodeSize
+	NextMemFid    int   // db.nextMemFid: incremented by every newMemTable (both modes)
+	SlSize        int64 // db.mt.sl.MemSize()
+	WalAt         int64 // db.mt.wal.writeAt (0 when there is no WAL: InMemory mode)
+	IsFull        bool  // db.mt.isFull()
+	NumImm        int   // len(db.imm)
+	NumTables     int   // tables in the levels
+}
+
+// VerifRoom reads the fields under db.lock.
+func (db *DB) VerifRoom() VerifRoomInfo {
+	db.lock.RLock()
+	defer db.lock.RUnlock()
+	r := VerifRoomInfo{
+		InMemory:      db.opt.InMemory,
+		MemTableSize:  db.opt.MemTableSize,
+		MaxBatchSize:  db.opt.maxBatchSize,
+		MaxBatchCount: db.opt.maxBatchCount,
+		ArenaSize:     arenaSize(db.opt),
+		MaxNodeSize:   int64(skl.MaxNodeSize),
+		NextMemFid:    db.nextMemFid,
+		NumImm:        len(db.imm),
+	}
+	if db.mt != nil {
+		r.SlSize = db.mt.sl.MemSize()
+		if db.mt.wal != nil {
+			r.WalAt = int64(db.mt.wal.writeAt)
+		}
+		r.IsFull = db.mt.isFull()
+	}
+	for _, lh := range db.lc.levels {
+		lh.RLock()
+		r.NumTables += len(lh.tables)
+		lh.RUnlock()
+	}
+	return r
+}
+
+// VerifMemHeight returns the tower height of the node of key@version in the active memtable
+// (0 = no such node).
+func (db *DB) VerifMemHeight(key []byte, version uint64) int {
+	db.lock.RLock()
+	defer db.lock.RUnlock()
+	if db.mt == nil {
+		return 0
+	}
+	return db.mt.sl.VerifNodeHeight(y.KeyWithTs(key, version))
+}
+
+// VerifWaitFlushed waits until the production flusher has turned every immutable memtable
+// into an L0 table (db.imm empty).
+func (db *DB) VerifWaitFlushed(timeout time.Duration) error {
+	deadline := time.Now().Add(timeout)
+	for {
+		db.lock.RLock()
+		n := len(db.imm)
+		db.lock.RUnlock()
+		if n == 0 {
+			return nil
+		}
+		if time.Now().After(deadline) {
+			return errors.New("verif: flush did not finish")
+		}
+		time.Sleep(200 * time.Microsecond)
+	}
+}
